@@ -15,7 +15,7 @@ namespace sim {
 enum YieldKind : uint8_t {
   Y_START = 0, Y_LOCK, Y_UNLOCK, Y_FACTORY_IN, Y_FACTORY_MID, Y_FACTORY_OUT,
   Y_READ, Y_SKIP, Y_SRC_DTOR, Y_FOPEN, Y_CK_READ, Y_CK_SEEK, Y_CK_CLOSE,
-  Y_ATOMIC_LD, Y_ATOMIC_ST, Y_ATOMIC_RMW, Y_OP, Y_BLOCKED, Y_END, Y_NKINDS
+  Y_ATOMIC_LD, Y_ATOMIC_ST, Y_ATOMIC_RMW, Y_OP, Y_BLOCKED, Y_END, Y_COND_WAIT, Y_COND_SIGNAL, Y_NKINDS
 };
 const char* yield_name(int k);
 
@@ -44,6 +44,7 @@ struct SchedResult {
   uint64_t sig_hash = 0;         // as trace_hash but ignoring the (independent) first step of every task
   int steps = 0;
   int contended_locks = 0;       // times a task found the mutex held
+  int cond_waits = 0, cond_timeouts = 0;  // condition-variable waits entered / timed waits that were let expire
   int switches = 0;              // steps where the chosen task differs from the previous one
 };
 
